@@ -241,3 +241,22 @@ package trustpolicy
 //@ loop 1 invariant forall(s, 0, rangeindex+1, has(policyNames, policyDoc.TrustPolicies[s].Name))
 //@ loop 1 invariant forall(s, 0, rangeindex+1, forall(u, 0, s, policyDoc.TrustPolicies[s].Name != policyDoc.TrustPolicies[u].Name))
 //@ loop 1 modifies mapobj(policyNames)
+
+// ---- C12: thin no-panic contracts (generated by `govc sweep`, then completed by hand where a callee needs more) ----
+
+//@ func (errPolicyNotExist).Error
+//@ props C12
+//@ modifies any
+
+//@ func LoadBlobDocument
+//@ props C12
+//@ modifies any
+
+//@ func LoadOCIDocument
+//@ props C12
+//@ modifies any
+
+
+//@ func getDocument
+//@ props C12
+//@ modifies any
